@@ -1233,6 +1233,42 @@ impl<'g, 's> LRTable<'g, 's> {
     }
 }
 
+#[cfg(feature = "verif")]
+impl LRState<'_> {
+    /// Items as (production, position, lookaheads). Verification hook.
+    pub fn verif_items(&self) -> Vec<(usize, usize, Vec<usize>)> {
+        self.items
+            .iter()
+            .map(|i| {
+                (
+                    i.prod.0,
+                    i.position,
+                    i.follow.borrow().iter().map(|s| s.0).collect(),
+                )
+            })
+            .collect()
+    }
+
+    /// Shift priorities per terminal. Verification hook.
+    pub fn verif_max_prior_for_term(&self) -> Vec<(usize, u32)> {
+        self.max_prior_for_term
+            .iter()
+            .map(|(t, p)| (t.0, *p))
+            .collect()
+    }
+}
+
+#[cfg(feature = "verif")]
+impl LRTable<'_, '_> {
+    /// FIRST sets indexed by symbol. Verification hook.
+    pub fn verif_first_sets(&self) -> Vec<Vec<usize>> {
+        self.first_sets
+            .iter()
+            .map(|f| f.iter().map(|s| s.0).collect())
+            .collect()
+    }
+}
+
 fn production_rn_lengths(
     first_sets: &SymbolVec<BTreeSet<SymbolIndex>>,
     grammar: &Grammar,
